@@ -91,11 +91,12 @@ def extra_checks(run):
             race = True
     cmd = [binary, "stress", "-seed", str(run.seed), "-rounds", rounds, "-ops", ops]
     try:
-        p = subprocess.run(cmd, env=env, stdout=subprocess.PIPE, stderr=subprocess.PIPE, text=True, timeout=900)
+        p = subprocess.run(cmd, env=env, stdout=subprocess.PIPE, stderr=subprocess.PIPE, text=True, timeout=2400)
         out, err, rc = p.stdout, p.stderr, p.returncode
     except subprocess.TimeoutExpired as e:
-        out, err, rc = (e.stdout or ""), (e.stderr or ""), -1
-        res.append(("stress-timeout", "free-running stress did not finish within 900 s (deadlock?)", "cmd: %s\n" % " ".join(cmd)))
+        txt = lambda b: b.decode("utf-8", "replace") if isinstance(b, bytes) else (b or "")
+        out, err, rc = txt(e.stdout), txt(e.stderr), -1
+        res.append(("stress-timeout", "free-running stress did not finish within 2400 s (deadlock?)", "cmd: %s\n" % " ".join(cmd)))
     fails = [l for l in out.split("\n") if l.startswith("STRESS-FAIL")]
     done = [l for l in out.split("\n") if l.startswith("STRESS-DONE")]
     run.notes.append("stress%s: %s" % (" (-race)" if race else "", done[0] if done else "no summary (exit %s)" % rc))
